@@ -22,6 +22,8 @@ Reason == IF CP(E) \notin CrashPoints(E.func) THEN "crash point unknown to the m
           ELSE IF (E.hooks > 0) # hooks THEN "forward/backward hooks were left on the model"
           ELSE IF ~E.sd_same THEN "parameters or buffers changed"
           ELSE IF ~E.probe_same THEN "the model's outputs or ordinary gradients changed"
+          ELSE IF ~E.fresh_probe_same THEN "a fresh copy no longer gives its outputs / ordinary gradients after the call"
+          ELSE IF E.woke THEN "a sub-module that was in evaluation mode came back in training mode"
           ELSE IF E.res # E.res_fresh \/ E.out # E.out_fresh THEN "the shared model gives a different result than a fresh copy"
           ELSE ""
 Exit == /\ phase = "running" /\ pc \in {"returned", "raised"}
